@@ -139,6 +139,16 @@ def apply_op(rng, m, op):
     if op == "concat":
         ext = m.points[:, 0].max() - m.points[:, 0].min()
         m2 = m.translate(ext, axis=0)  # shares a face with m when m is an axis-aligned box, disjoint otherwise
+        if rng.integers(0, 2):
+            # parts with different numbers of points and cells (a part of the mesh: the cells of the first half, with the
+            # points they use), in both orders and as a third member
+            half = m.cells[: max(1, m.ncells // 2)]
+            keep = np.unique(half)
+            remap = -np.ones(m.npoints, int)
+            remap[keep] = np.arange(len(keep))
+            part = fem.Mesh(m.points[keep] + np.eye(dim)[0] * 2.5 * ext, remap[half], m.cell_type)
+            order = [[m, part, m2], [part, m, m2], [m, m2, part]][int(rng.integers(0, 3))]
+            return fem.mesh.concatenate(order)
         return fem.mesh.concatenate([m, m2])
     if op == "merge":
         dec = [None, 8, 5][int(rng.integers(0, 3))]
